@@ -104,7 +104,7 @@ pub fn decode_src_case(data: &[u8], wild: bool) -> SrcCase {
         };
         events.push(e);
     }
-    SrcCase { suffix, events, crlf, echo: false, no_eol: false, bom: false, nul: false }
+    SrcCase { suffix, events, crlf, echo: false, no_eol: false, bom: false, nul: false, far: false }
 }
 
 /// In-process oracle: the listing must show exactly the blocks written in comments (attributes, line, column,
